@@ -100,19 +100,37 @@ _T_G = C19_TEXT.replace("96 = S 2 200", "0 = S 2 97").replace("  96 = N 2 100\n"
 _T_H = C19_TEXT.replace('  192 = E "crowd"', "\n".join('  %d = E "text %d"' % (200 + k, k) for k in range(6)))   # many text events
 _T_I = C19_TEXT.replace('  Name = "t"', '  Offset = 7\n  Player2 = guitar')                                # [Song] fails after Offset was read
 _T_J = C19_TEXT.replace('  Name = "t"\n', "").replace("  96 = S 2 200", "  96 = S 2 200\n  768 = E solo").replace('  192 = E "crowd"', "  768 = E solo")
-HIST_TEXTS = [_T_A, _T_B, _T_C, _T_D, _T_E, _T_F, _T_G, _T_H, _T_I, _T_J]
-HIST_SELECT = [None, None, None, None, None, None, [(Instrument.GUITAR, Difficulty.EXPERT)], None, None, None]
+_T_K = C19_TEXT + "".join("[%s]\n{\n  %d = N %d 0\n}\n" % (nm, 100 * k, k % 5) for k, nm in enumerate(
+    ["EasySingle", "MediumDoubleBass", "HardKeyboard", "ExpertGHLGuitar", "Unknown1", "EasyDrums", "Unknown2", "MediumSingle"]))   # many tracks, two unknown sections
+HIST_TEXTS = [_T_A, _T_B, _T_C, _T_D, _T_E, _T_F, _T_G, _T_H, _T_I, _T_J, _T_K]
+HIST_SELECT = [None, None, None, None, None, None, [(Instrument.GUITAR, Difficulty.EXPERT)], None, None, None, None]
+
+
+class _WarnLog:
+    def __init__(self):
+        self.msgs = []
+
+    def warning(self, msg, *a, **k):
+        self.msgs.append(str(msg))
+
+    def __getattr__(self, name):
+        return lambda *a, **k: None
 
 
 def _hist_observe(i):
     # run natively: the texts are concrete on every path, and CrossHair substitutes its own
     # (float-based) timedelta model under tracing, which is not what a fresh interpreter computes
+    import chartparse.chart as _C
+    import chartparse.track as _T
     with H.untraced():
-        try:
-            ch = Chart.from_file(io.StringIO(HIST_TEXTS[i]), want_tracks=HIST_SELECT[i])
-        except Exception as e:  # noqa: BLE001
-            return "raised " + type(e).__name__
-        return repr(observe(ch)) + " || " + str(ch)
+        log = _WarnLog()
+        with H.patched((_C, "logger", log), (_T, "logger", log)):
+            try:
+                ch = Chart.from_file(io.StringIO(HIST_TEXTS[i]), want_tracks=HIST_SELECT[i])
+            except Exception as e:  # noqa: BLE001
+                return "raised " + type(e).__name__
+        # what a user can observe: every datum, the rendering, and the reports in the order given
+        return repr(observe(ch)) + " || " + str(ch) + " || " + repr(log.msgs)
 
 
 _HIST_PROG = '''
@@ -127,10 +145,12 @@ print("REF " + json.dumps(out))
 '''
 
 
-def _run_history(seq):
+def _run_history(seq, hashseed=None):
     """Parse the texts `seq` one after the other in ONE fresh interpreter; observation of the last."""
     env = dict(_os.environ)
     env["VF_HIST_CHILD"] = "1"
+    if hashseed is not None:
+        env["PYTHONHASHSEED"] = str(hashseed)
     p = _subprocess.run([_sys.executable, "-c", _HIST_PROG % ([p_ for p_ in _sys.path if p_],)] + [str(i) for i in seq],
                         env=env, capture_output=True, text=True, timeout=300)
     for ln in p.stdout.splitlines():
@@ -165,3 +185,66 @@ def history_free(x1: int, x2: int, y: int) -> bool:
     with H.untraced():
         seq = [i1] + ([i2] if HLEN >= 2 else []) + [iy]
         return done(_run_history(seq) == _HIST_REFS[iy])
+
+
+HASHSEEDS = [1, 2, 3, 7, 12345, 4242424242]
+
+
+def hash_seed_free(y: int, si: int) -> bool:
+    """
+    pre: 0 <= y < len(HIST_TEXTS) and 0 <= si < len(HASHSEEDS)
+    post: _
+    """
+    # "in a fresh interpreter": the interpreter's string-hash randomisation differs from process to
+    # process; the reference parses run with PYTHONHASHSEED=0 (vf.runner), these with other seeds
+    n = len(HIST_TEXTS)
+    iy, seed = H.pick(list(range(n)), y), H.pick(HASHSEEDS, si)
+    with H.untraced():
+        return done(_run_history([iy], hashseed=seed) == _HIST_REFS[iy])
+
+
+# ---------------------------------------------------------------------------------------------
+# long histories: many parses whose charts are dropped at once (freed objects, recycled addresses)
+# ---------------------------------------------------------------------------------------------
+_LONG_PROG = '''
+import gc, json, logging, sys
+logging.disable(logging.CRITICAL)
+sys.path[:0] = %r
+import harness.h_hist as M
+a, b, n = int(sys.argv[1]), int(sys.argv[2]), int(sys.argv[3])
+first = {}
+bad = None
+for k in range(n):
+    i = (a, b)[k %% 2] if k %% 7 != 6 else (b, a)[k %% 2]
+    out = M._hist_observe(i)              # the chart is dropped as soon as it has been observed
+    if k %% 5 == 0:
+        gc.collect()
+    if first.setdefault(i, out) != out:
+        bad = k
+        break
+print("REF " + json.dumps(bad))
+'''
+LONG_N = [30, 120, 400]
+
+
+def _run_long(a, b, n):
+    env = dict(_os.environ)
+    env["VF_HIST_CHILD"] = "1"
+    p = _subprocess.run([_sys.executable, "-c", _LONG_PROG % ([p_ for p_ in _sys.path if p_],), str(a), str(b), str(n)],
+                        env=env, capture_output=True, text=True, timeout=600)
+    for ln in p.stdout.splitlines():
+        if ln.startswith("REF "):
+            return _json.loads(ln[4:])
+    raise RuntimeError("long history run failed: " + p.stderr[-300:])
+
+
+def long_history(x: int, y: int, ni: int) -> bool:
+    """
+    pre: 0 <= x < 4 and 0 <= y < 4 and x != y and 0 <= ni < len(LONG_N)
+    post: _
+    """
+    # texts 0..3 share every tick and differ in tempo map / resolution / unknown lines: a parse that
+    # picks up anything from an earlier (already freed) chart shows as a changed observation
+    a, b, n = H.pick([0, 1, 2, 3], x), H.pick([0, 1, 2, 3], y), H.pick(LONG_N, ni)
+    with H.untraced():
+        return done(_run_long(a, b, n) is None)
